@@ -137,6 +137,7 @@ def cases(draw):
         'readd': draw(route_set()) if (n_old == 2 and len(new) == 1) else None,
         'mid': draw(evolve(old[0]['routes'])) if (session_up and draw(st.integers(0, 2)) == 0 and not any('v4only' in nb for nb in old + new)) else None,
         'mid_gap': draw(st.sampled_from([-1.0, -1.0, 0.0, 0.03, 0.3, 2.0])),
+        'mid_hold': draw(st.sampled_from([30, 30, 45])) if ribout else 30,  # without Adj-RIB-Out only the path that keeps the session is in the domain
         'pre_failed': [draw(st.sampled_from(['token-deleted', 'unknown-keyword', 'raises', 'truncated', 'brace-dropped', 'trailing', 'trailing'])), draw(st.integers(0, 10000)), draw(st.sampled_from([0.0, 0.3, 2.0]))] if draw(st.integers(0, 3)) == 0 else None,
     }
 
@@ -290,7 +291,7 @@ def check(case: dict) -> dict:
             if case.get('mid') is not None and kind is None:
                 # two reloads one behind the other: a first valid file (same neighbors, other routes) is loaded, and the file judged
                 # follows `mid_gap` seconds after that reload was executed (0: before the peers have looked at it)
-                mid = [dict(nb, routes=case['mid']) if i == 0 else nb for i, nb in enumerate(case['old'])]
+                mid = [dict(nb, routes=case['mid'], hold=case.get('mid_hold', nb['hold'])) if i == 0 else nb for i, nb in enumerate(case['old'])]
                 with open(path, 'w') as fh:
                     fh.write(render(mid, ribout, process=not case.get('no_process')))
                 n_results = len(results)
@@ -503,6 +504,11 @@ def fixed_cases() -> list:
     for up in (True, False):
         for kind, at in (('trailing', 0), ('trailing', 1), ('trailing', 2), ('raises', 1), ('token-deleted', 9999)):
             out.append({'no_process': False, 'old': [{'peer': 0, 'hold': 30, 'routes': [[0, 1, 0]]}, {'peer': 1, 'hold': 30, 'routes': [[0, 1, 0], [1, 2, 0]]}], 'new': [{'peer': 0, 'hold': 30, 'routes': [[0, 1, 0]]}], 'break': None, 'break_at': 0, 'session_up': up, 'api': [], 'via': 'signal', 'then_valid_reload': False, 'ribout': True, 'readd': [[2, 3, 0]], 'pre_failed': [kind, at, 0.3]})
+    # the first of two reloads changes a session parameter (the session is taken down for it) and removes a route, the second
+    # comes while the neighbor is down
+    for gap in (0.3, 2.0):
+        for new_routes in ([[1, 1, 0]], [[1, 1, 0], [2, 2, 0]]):
+            out.append({'no_process': False, 'old': [{'peer': 0, 'hold': 30, 'routes': [[0, 1, 0], [1, 1, 0]]}], 'new': [{'peer': 0, 'hold': 45, 'routes': new_routes}], 'break': None, 'break_at': 0, 'session_up': True, 'api': [], 'via': 'signal', 'then_valid_reload': False, 'ribout': True, 'readd': None, 'mid': [[1, 1, 0]], 'mid_gap': gap, 'mid_hold': 45})
     # two reloads one behind the other (old -> mid -> new): the first removes a route and adds one, the second changes nothing more / puts
     # the first state back; what the peer holds at the end is the last file
     for gap in (-1.0, 0.0, 0.3):
